@@ -327,3 +327,99 @@ Proof. vm_compute. intuition congruence. Qed.
 (* every index into gDigitsLut / kHexDigits used by the model is inside the table *)
 Lemma lut_indices_in_range : forall x, 0 <= x < 100 -> lut_in_range (x * 2) = true /\ lut_in_range (x * 2 + 1) = true.
 Proof. intros x H. unfold lut_in_range. assert (zlen gDigitsLut = 200) as -> by reflexivity. lia. Qed.
+
+(* ---- ThreadedBufferedStream, producer side *)
+
+Definition block_ok (cap : Z) (b : list Z) : Prop := 0 < zlen b <= cap.
+
+Lemma t_spill_spec cap buf : zlen buf <= cap ->
+  let '(b, w) := t_spill buf in b = [] /\ concat w = buf /\ Forall (block_ok cap) w.
+Proof.
+  intros H. destruct buf as [|x l]; simpl.
+  - repeat split; auto.
+  - repeat split; [rewrite app_nil_r; reflexivity|]. constructor; [|constructor].
+    unfold block_ok. rewrite zlen_cons in *. pose proof (zlen_nonneg l). lia.
+Qed.
+
+Lemma zlen_firstn {A} n (l : list A) : zlen (firstn n l) = Z.min (Z.of_nat n) (zlen l).
+Proof. unfold zlen. rewrite firstn_length. lia. Qed.
+
+Lemma zlen_skipn {A} n (l : list A) : zlen (skipn n l) = Z.max 0 (zlen l - Z.of_nat n).
+Proof. unfold zlen. rewrite skipn_length. lia. Qed.
+
+Lemma t_write_spec cap : 1 <= cap -> forall fuel buf data,
+  (length data + (match buf with [] => 0 | _ => 1 end) < fuel)%nat -> zlen buf <= cap ->
+  exists b w, t_write fuel cap buf data = Some (b, w) /\ zlen b <= cap /\ concat w ++ b = buf ++ data /\ Forall (block_ok cap) w.
+Proof.
+  intros Hcap. induction fuel as [|f IH]; intros buf data Hm Hb; [lia|].
+  cbn [t_write]. destruct (zlen buf + zlen data >? cap) eqn:E.
+  - set (k := Z.to_nat (cap - zlen buf)).
+    assert (zlen (buf ++ firstn k data) = cap) as Hfull.
+    { rewrite zlen_app, zlen_firstn. unfold k. pose proof (zlen_nonneg buf). lia. }
+    destruct (buf ++ firstn k data) as [|x blk] eqn:Eb; [rewrite zlen_nil in Hfull; lia|].
+    cbn [t_spill].
+    assert (length (skipn k data) + 0 < f)%nat as Hm'.
+    { rewrite skipn_length. clear Eb Hfull. destruct buf as [|y buf'].
+      - unfold k. rewrite zlen_nil in *. unfold zlen in E. lia.
+      - lia. }
+    destruct (IH [] (skipn k data) Hm' ltac:(rewrite zlen_nil; lia)) as (b' & w' & Ew & Lb & Cw & Fw).
+    rewrite Ew. exists b', ([x :: blk] ++ w'). repeat split; auto.
+    + rewrite concat_app, <- app_assoc, Cw. simpl concat. rewrite app_nil_r, <- Eb.
+      simpl app. rewrite <- app_assoc. rewrite firstn_skipn. reflexivity.
+    + apply Forall_app. split; [|exact Fw]. constructor; [|constructor]. unfold block_ok. lia.
+  - exists (buf ++ data), []. rewrite zlen_app. repeat split; auto. lia.
+Qed.
+
+Lemma t_step_safe cap kmax buf o : 1 <= kmax <= cap -> sop_ok kmax o -> zlen buf <= cap ->
+  exists b w, t_step cap buf o = TOk b w /\ zlen b <= cap /\ concat w ++ b = buf ++ sop_bytes o /\ Forall (block_ok cap) w.
+Proof.
+  intros Hk Hok Hb. destruct o as [data|c|kb f|]; cbn [t_step sop_bytes].
+  - destruct (t_write_spec cap ltac:(lia) (S (S (length data))) buf data) as (b & w & E & L & C & F); [destruct buf; lia|exact Hb|].
+    rewrite E. exists b, w. auto.
+  - pose proof (t_spill_spec cap buf Hb) as Hs. destruct (t_spill buf) as [b0 w0]. destruct Hs as (Hb0 & Hc0 & Hf0).
+    destruct (zlen buf + 1 >? cap) eqn:E1.
+    + subst b0. replace (zlen (@nil Z) + 1 <=? cap) with true by (rewrite zlen_nil; lia).
+      exists [c], w0. repeat split; auto; [unfold zlen; simpl; lia|]. rewrite Hc0. reflexivity.
+    + replace (zlen buf + 1 <=? cap) with true by lia.
+      exists (buf ++ [c]), []. rewrite zlen_app. repeat split; auto. unfold zlen at 2. simpl. lia.
+  - destruct Hok as [[Ho Hf] Hkb].
+    pose proof (t_spill_spec cap buf Hb) as Hs. destruct (t_spill buf) as [b0 w0]. destruct Hs as (Hb0 & Hc0 & Hf0).
+    destruct (zlen buf + kb >? cap) eqn:E1.
+    + subst b0. replace ((zlen (@nil Z) + f_foot f <=? cap) && (zlen (@nil Z) + zlen (f_out f) <=? cap)) with true by (rewrite zlen_nil; lia).
+      exists (f_out f), w0. repeat split; auto; [lia|]. rewrite Hc0. reflexivity.
+    + replace ((zlen buf + f_foot f <=? cap) && (zlen buf + zlen (f_out f) <=? cap)) with true by lia.
+      exists (buf ++ f_out f), []. rewrite zlen_app. repeat split; auto. lia.
+  - exists buf, []. rewrite app_nil_r. repeat split; auto.
+Qed.
+
+Lemma t_stream_safe_proof : forall cap kmax ops, 1 <= kmax <= cap -> Forall (sop_ok kmax) ops ->
+  forall buf, zlen buf <= cap ->
+  exists b w, t_run cap buf ops = TOk b w /\ zlen b <= cap /\ concat w ++ b = buf ++ flat_map sop_bytes ops /\
+              Forall (block_ok cap) (w ++ t_destroy b) /\ concat (w ++ t_destroy b) = buf ++ flat_map sop_bytes ops.
+Proof.
+  intros cap kmax ops Hk. induction ops as [|o r IH]; intros Hall buf Hb.
+  - exists buf, []. cbn [t_run flat_map]. rewrite app_nil_r. repeat split; auto.
+    + unfold t_destroy. pose proof (t_spill_spec cap buf Hb) as Hs. destruct (t_spill buf) as [b0 w0]. simpl. apply Hs.
+    + unfold t_destroy. pose proof (t_spill_spec cap buf Hb) as Hs. destruct (t_spill buf) as [b0 w0]. simpl. apply Hs.
+  - inversion Hall as [|? ? Ho Hr]; subst.
+    destruct (t_step_safe cap kmax buf o Hk Ho Hb) as (b1 & w1 & E1 & L1 & C1 & F1).
+    destruct (IH Hr b1 L1) as (b2 & w2 & E2 & L2 & C2 & F2 & D2).
+    exists b2, (w1 ++ w2). cbn [t_run flat_map]. rewrite E1, E2. repeat split; auto.
+    + rewrite concat_app, <- app_assoc, C2, app_assoc, C1, <- app_assoc. reflexivity.
+    + rewrite <- app_assoc. apply Forall_app. split; assumption.
+    + rewrite <- app_assoc, concat_app, D2, app_assoc, C1, <- app_assoc. reflexivity.
+Qed.
+
+(* ---- StringStream *)
+Lemma ss_run_safe_proof : forall kmax ops, Forall (sop_ok kmax) ops ->
+  forall str, ss_run str ops = Some (str ++ flat_map sop_bytes ops).
+Proof.
+  intros kmax ops. induction ops as [|o r IH]; intros Hall str; cbn [ss_run flat_map].
+  - rewrite app_nil_r. reflexivity.
+  - inversion Hall as [|? ? Ho Hr]; subst. destruct o as [data|c|kb f|]; cbn [ss_step sop_bytes].
+    + rewrite IH by exact Hr. rewrite app_assoc. reflexivity.
+    + rewrite IH by exact Hr. rewrite app_assoc. reflexivity.
+    + destruct Ho as [[Ho Hf] Hk]. replace ((f_foot f <=? kb) && (zlen (f_out f) <=? kb)) with true by lia.
+      rewrite IH by exact Hr. rewrite app_assoc. reflexivity.
+    + rewrite IH by exact Hr. reflexivity.
+Qed.
